@@ -1030,6 +1030,54 @@ def p_schema(o):
         finally:
             shutil.rmtree(d, ignore_errors=True)
         o.need(["def_composite", "def_variant", "def_sequence", "def_array", "def_tuple", "def_primitive", "def_compact", "def_bitsequence", "skipped_type_param_null", "empty_path_omitted", "id_u32_max"], pre)
+    # feature sets the main harness cannot be built in (it always links `decode`): the fingerprint binary forwards features one by one
+    # and emits the schema plus the serialised corpus registries (whole, retained, empty, every third root alone) itself
+    gen = gen_corpus(o.seed, o.tier)
+    fp_sets = [("emit-schema",), ("emit-schema", "bit-vec"), ("emit-schema", "decode")]
+    if o.tier == "thorough":
+        fp_sets += [("emit-schema", "docs"), ("emit-schema", "serde", "decode", "bit-vec", "docs")]
+    for fs in fp_sets:
+        env = base_env()
+        env["VERIF_GEN"] = gen
+        env["CARGO_TARGET_DIR"] = os.path.join(TARGET, "fp-schema")
+        d = os.path.join(WORK, "schema-fp-%d" % os.getpid())
+        shutil.rmtree(d, ignore_errors=True)
+        label = ",".join(("schema", "serde") + fs[1:])
+        try:
+            with Lock("fp"):
+                ensure_fresh(base_env())
+                p = subprocess.run(["cargo", "build", "--offline", "-q", "-p", "fp", "--features", ",".join(fs)], cwd=HARNESS, env=env, stdout=subprocess.PIPE, stderr=subprocess.PIPE, text=True)
+            if p.returncode != 0:
+                o.inconclusive.append("schema emitter for features {%s} does not build: %s" % (label, p.stderr[-500:]))
+                continue
+            r = subprocess.run([os.path.join(env["CARGO_TARGET_DIR"], "debug", "fp"), "--emit-schema", d], stdout=subprocess.PIPE, stderr=subprocess.PIPE, text=True, timeout=600)
+            if r.returncode != 0:
+                o.violations.append({"key": "C19/schema-generation-panics", "msg": "emitting schema and documents with features {%s} failed: %s" % (label, r.stderr[-600:]), "case": {"features": label}})
+                o.violation_count += 1
+                continue
+            v = subprocess.run(["python3-vt", os.path.join(VERIF, "driver", "validate_schema.py"), os.path.join(d, "schema.json"), os.path.join(d, "docs-0.jsonl")], stdout=subprocess.PIPE, stderr=subprocess.PIPE, text=True,
+                               env=base_env(), timeout=sizes(o.tier, 600, 2400))
+            try:
+                res = json.loads(v.stdout.strip().splitlines()[-1])
+            except Exception:
+                o.inconclusive.append("schema validator failed for features {%s}: %s" % (label, v.stderr[-400:]))
+                continue
+            o.evaluations += res["validated"]
+            o.distinct += res["validated"]
+            o.extra["fp_%s_documents_validated" % "_".join(fs[1:] or ("plain",))] = res["validated"]
+            if res["validated"] < 10:
+                o.inconclusive.append("only %d documents were emitted for features {%s}" % (res["validated"], label))
+            if not res["schema_ok"]:
+                o.violations.append({"key": "C19/schema-invalid", "msg": res["errors"][0]["message"], "case": {"features": label}})
+                o.violation_count += 1
+            for e in res["errors"]:
+                if e.get("case") is None:
+                    continue
+                e["features"] = label
+                o.violations.append({"key": "C19/document-rejected", "msg": "schema (features %s; no harness library, corpus registries) rejects a serialised registry at /%s: %s" % (label, e["path"], e["message"]), "case": e})
+                o.violation_count += 1
+        finally:
+            shutil.rmtree(d, ignore_errors=True)
     o.rule = ("serialised registries: RegGen (both modes, every definition kind, optional parts absent/present/empty, skipped type parameter => null, ids up to u32::MAX, index 255, hostile strings) "
               "validated by python jsonschema Draft7Validator against schemars::schema_for!(PortableRegistry), generated by builds with the schema feature on and bit-vec on / off (thorough: also docs on). "
               "Non-trivial: >=1 entry; distinct = distinct documents.")
